@@ -48,6 +48,11 @@ def leafDefects (r : Row) (i : Nat) (spec : LeafSpec) (leaf : Leaf) : List Strin
       | none => true
     (if needsUnits && !leaf.carries && perGroup.isEmpty then [s!"degree:{i}:bare"] else []) ++ perGroup ++ foreign
 
+/-- the label's scale must be the product of the operand scales (no simplification coefficient dropped) -/
+def kappaDefects (r : Row) : List String :=
+  (r.leaves.zipIdx.filterMap fun (leaf, i) =>
+    if leaf.carries && leaf.kappa != 1 then some s!"coefficient:{i}:{ratStr leaf.kappa}" else none)
+
 def zipDefects (r : Row) : Nat → List LeafSpec → List Leaf → List String
   | _, [], [] => []
   | i, s :: ss, l :: ls => leafDefects r i s l ++ zipDefects r (i + 1) ss ls
@@ -79,7 +84,7 @@ def rowDefects (r : Row) : List String :=
      match r.leaves with
      | [] => ["degree:leaves:0/1"]
      | lf :: more => leafDefects r 0 h lf ++ restDefects r rest 1 more)
-  ++ outDefects r
+  ++ outDefects r ++ kappaDefects r
 
 /-- every defect of every row is on the literal exclusion list -/
 def tableOk (excl : List (String × String)) (rows : List Row) : Bool :=
